@@ -102,10 +102,13 @@ static void check_reverse(Ctx& ctx, Env& v, double X, double Y, double Z, const 
   std::string key = pkey(v, origin, X, Y, Z);
   Q R = sqrtq((Q)X * X + (Q)Y * Y), P = sqrtq((Q)X * X + (Q)Y * Y + (Q)Z * Z);
   const char* reg = region_name(v, R, fabsq((Q)Z), P);
-  // does S = e^4 p q / 4 of the cubic underflow (non-zero but below min/eps) in double?  p = (R/a)^2, q = (1-e^2)(Z/a)^2
+  // do the terms of the cubic underflow in double (non-zero but below min/eps)?  p = (R/a)^2, q = (1-e^2)(Z/a)^2, S = e^4 p q / 4
   bool sund = false;
-  if (v.ef->f != 0) { Q pp = (R / v.E.a) * (R / v.E.a), qq = v.E.e2m * ((Q)Z / v.E.a) * ((Q)Z / v.E.a), S = v.E.e2 * v.E.e2 * pp * qq / 4; sund = S > 0 && S < (Q)1e-292; }
-  mc::Fields F0{{"ellipsoid", v.ef->name}, {"region", reg}, {"origin", origin}, {"S_underflow", sund ? "yes" : "no"}};
+  if (v.ef->f != 0) {
+    Q pp = (R / v.E.a) * (R / v.E.a), qq = v.E.e2m * ((Q)Z / v.E.a) * ((Q)Z / v.E.a), S = v.E.e2 * v.E.e2 * pp * qq / 4; const Q lim = 1e-292Q;
+    sund = (S > 0 && S < lim) || (qq > 0 && qq < lim) || (pp > 0 && pp < lim);
+  }
+  mc::Fields F0{{"ellipsoid", v.ef->name}, {"region", reg}, {"origin", origin}, {"cubic_underflow", sund ? "yes" : "no"}};
   auto FF = [&](const char* kind) { mc::Fields F = F0; F.push_back({"kind", kind}); return F; };
   double lat = -777, lon = -777, h = -777, lat2 = -777, lon2 = -777, h2 = -777;
   std::vector<double> M(9, -777.0), M0, M10(10, -777.0);
